@@ -218,6 +218,33 @@ func genVol(r *Rng, c *Ctx, sx, sy, sz int) (*vol, string) {
 			}
 		}
 	}
+	if r.Chance(0.3) {
+		// an edge label (0, 1, 2^63, 2^64-1, ...) laid over structural positions of the sub-blocks: the leading
+		// voxels in raster order, a low-z slab, or whole sub-blocks
+		l := labelEdges[r.Intn(len(labelEdges))]
+		if r.Chance(0.3) {
+			l = ^uint64(0)
+		}
+		shape := r.Intn(3)
+		k := 1 + r.Intn(7)
+		run := 1 + r.Intn(200)
+		for bz := 0; bz < gz; bz++ {
+			for by := 0; by < gy; by++ {
+				for bx := 0; bx < gx; bx++ {
+					if shape != 0 && !r.Chance(0.4) {
+						continue
+					}
+					for i := 0; i < 512; i++ {
+						x, y, z := i%8, (i/8)%8, i/64
+						if (shape == 0 && z < k) || shape == 1 || (shape == 2 && i < run) {
+							v.a[(bz*8+z)*sx*sy+(by*8+y)*sx+bx*8+x] = l
+						}
+					}
+				}
+			}
+		}
+		mode += "+edge-label-" + []string{"slab", "subblocks", "leading-run"}[shape]
+	}
 	c.Count("vol-" + mode)
 	return v, mode
 }
